@@ -144,9 +144,33 @@ def replay(path):
     return 1 if rej else 0
 
 
+def one(prop, tagsub, tier='quick', seed=1):
+    """development aid: run the scenarios of a property whose tag contains tagsub and print the diagnosis"""
+    scens = [s for s in gen.generate(prop, tier, seed) if tagsub in s.get('tag', '')][:3]
+    work = os.path.join(core.OUT, 'one')
+    shutil.rmtree(work, ignore_errors=True)
+    os.makedirs(work)
+    driver = core.build_driver(work)
+    traces, notes = core.run_scenarios(driver, scens, work)
+    spec = props.PROPS[prop].get('trace_spec', 'GoatTrace.tla')
+    acc, st, rej = core.validate_traces(spec, traces, work)
+    print('%d scenarios, %d accepted, %d rejected' % (len(scens), acc, len(rej)))
+    for r in rej:
+        for fnd in r['findings']:
+            print('rejected at line %d groups=%s' % (fnd['line'], fnd['groups']))
+            for ln in r['lines'][max(0, fnd['line'] - 14):fnd['line']]:
+                d = json.loads(ln)
+                e = d.get('env') or {}
+                print('  ', {k: v for k, v in d.items() if v not in ('', 0, -1, []) and k not in ('seq', 'sc', 'conn', 'env')},
+                      ('id=%s %s code=%s pay=%s md=%s tmd=%s' % (e.get('id'), ''.join(str(e.get(x, '')) for x in 'hbstr'), e.get('code'), e.get('pay'), e.get('md'), e.get('tmd'))) if e else '')
+    return 0
+
+
 def main(argv):
     if argv and argv[0] == 'replay':
         return replay(argv[1])
+    if argv and argv[0] == 'one':
+        return one(argv[1], argv[2])
     ap = argparse.ArgumentParser()
     ap.add_argument('prop')
     ap.add_argument('--tier', default=os.environ.get('VERIF_TIER', 'quick'))
